@@ -82,6 +82,29 @@ add("C01", "pipe", "exploration",
     "Trusts go/scanner, go/parser, go/format and mvdan.cc/gofumpt as reference; token equality is asserted only for the grammar, which avoids gofmt -s / gofumpt token rewrites.",
     "DESIGN.md section 3, C01")
 
+add("C04", "pipe", "exploration",
+    "property-based testing (rapid): repeated runs, fresh-process runs and permuted entrypoints from one initial tree must agree byte for byte; re-run on the result must be a fixed point",
+    "From the same initial tree 3 in-process runs, a run in a fresh child process and runs with permuted entrypoint lists must produce byte-identical generated files, "
+    "gengo.sum and GenerateType call sequences; a further run on the result must change no generated file and, with All, a third run nothing at all. "
+    "Generators echo everything order-sensitive gengo hands them (type order, doc lines, tags, map literal, imports).",
+    "Map-iteration orders are sampled by repetition (a 2-way order dependence escapes one case with p<=2^-4, and there are hundreds of cases).",
+    "DESIGN.md section 3, C04")
+
+add("C05", "pipe", "exploration",
+    "property-based testing (rapid), metamorphic: a package's output bytes compared across selections (alone / with others / any order / through All)",
+    "Stateful recording generators (per-instance counter, helper-once flag, clashing import references; zero-value and custom-New construction) and the real "
+    "runtimedoc/defaulter generators are run from the same initial tree under 2-5 selections; every package's <base>.* files must be byte-identical in all selections that process it.",
+    "All runs use Force so that the cache does not decide what is processed.",
+    "DESIGN.md section 3, C05")
+
+add("C08", "pipe", "exploration",
+    "model-based property testing (rapid): generated histories of file edits, gengo.sum corruptions and runs against a reference cache model that hashes directories itself",
+    "Histories of edits / sum-file corruptions / runs (All, Force, failing, subset, non-All) are replayed against the real tree; before each run the model hashes "
+    "every loaded package directory with x/mod dirhash (cross-checked by an own h1 implementation) and parses gengo.sum with its own reader; the set of packages the "
+    "recording generator is invoked for, the bytes of gengo.sum and the read-back mapping must equal the model after every step, and three unchanged runs must converge.",
+    "Trusts x/mod/sumdb/dirhash (cross-checked) and the harness sum-file reader; no clock or filesystem semantics beyond create/edit/delete/symlink.",
+    "DESIGN.md section 3, C08")
+
 ALL = ["C%02d" % i for i in range(1, 21)]
 
 def main():
